@@ -15,7 +15,7 @@ lexicographically sorted pair hashing).
 """
 NAME = "k15_taptree"
 ENGINE = "kani"
-PROPS = ("C15", "C11")
+PROPS = ("C10", "C15", "C11")
 INJECT = [("src/descriptor/tr/spend_info.rs", "contracts/kani/k15_bitstack.rs"),
           ("src/descriptor/tr/taptree.rs", "contracts/kani/k15_builder.rs"),
           ("src/descriptor/tr/spend_info.rs", "contracts/kani/k15_merkle.rs")]
@@ -53,25 +53,25 @@ HARNESSES = [
     dict(name="bitstack_lifo", fn="BitStack128::push+pop", props=("C15", "C11"), kind="complete", tags=_BPP),
     dict(name="builder_new", fn="TapTreeBuilder::new", props=("C15", "C11"), kind="complete",
          tags=["C15:builder_new.invariant", "C15:builder_new.empty_at_root"]),
-    dict(name="builder_push_inner_node", fn="TapTreeBuilder::push_inner_node", props=("C15", "C11"), kind="complete",
-         tags=["C15:push_inner_node.err_iff_depth_exceeds_128", "C15:push_inner_node.descends_one_level",
-               "C15:push_inner_node.flags_unchanged", "C15:push_inner_node.invariant",
-               "C15:push_inner_node.new_level_not_done", "C15:push_inner_node.leaves_unchanged"]),
+    dict(name="builder_push_inner_node", fn="TapTreeBuilder::push_inner_node", props=("C10", "C15", "C11"), kind="complete",
+         tags=["C10,C15:push_inner_node.err_iff_depth_exceeds_128", "C10,C15:push_inner_node.descends_one_level",
+               "C10,C15:push_inner_node.flags_unchanged", "C10,C15:push_inner_node.invariant",
+               "C10,C15:push_inner_node.new_level_not_done", "C10,C15:push_inner_node.leaves_unchanged"]),
 ] + [
-    dict(name="builder_push_leaf_h%s" % rng, fn="TapTreeBuilder::push_leaf", props=("C15", "C11"), kind="complete",
-         tags=["C15:push_leaf.records_one_leaf", "C15:push_leaf.records_current_depth", "C15:push_leaf.records_the_leaf",
-               "C15:push_leaf.cursor_never_descends", "C15:push_leaf.stops_at_unfinished_left",
-               "C15:push_leaf.climbs_only_over_finished_left", "C15:push_leaf.clears_climbed_levels",
-               "C15:push_leaf.marks_left_finished", "C15:push_leaf.other_levels_unchanged", "C15:push_leaf.invariant"])
+    dict(name="builder_push_leaf_h%s" % rng, fn="TapTreeBuilder::push_leaf", props=("C10", "C15", "C11"), kind="complete",
+         tags=["C10,C15:push_leaf.records_one_leaf", "C10,C15:push_leaf.records_current_depth", "C10,C15:push_leaf.records_the_leaf",
+               "C10,C15:push_leaf.cursor_never_descends", "C10,C15:push_leaf.stops_at_unfinished_left",
+               "C10,C15:push_leaf.climbs_only_over_finished_left", "C10,C15:push_leaf.clears_climbed_levels",
+               "C10,C15:push_leaf.marks_left_finished", "C10,C15:push_leaf.other_levels_unchanged", "C10,C15:push_leaf.invariant"])
     for rng in ("000_031", "032_055", "056_072", "073_086", "087_098", "099_109", "110_119", "120_128")
     # the eight ranges partition current_height 0..=128
 ] + [
     dict(name="builder_finalize", fn="TapTreeBuilder::finalize", props=("C15", "C11"), kind="complete",
          tags=["C15:builder_finalize.leaves_unchanged"]),
-    dict(name="builder_preorder_depths", fn="TapTreeBuilder (pre-order listing -> depths)", props=("C15", "C11"),
+    dict(name="builder_preorder_depths", fn="TapTreeBuilder (pre-order listing -> depths)", props=("C10", "C15", "C11"),
          kind="bounded", bound="all pre-order listings with <= 4 leaves (<= 7 tokens)",
-         tags=["C15:builder_preorder.inner_node_accepted", "C15:builder_preorder.invariant", "C15:builder_preorder.ends_at_root",
-               "C15:builder_preorder.leaf_count", "C15:builder_preorder.depths", "C15:builder_preorder.order"]),
+         tags=["C10,C15:builder_preorder.inner_node_accepted", "C10,C15:builder_preorder.invariant", "C10,C15:builder_preorder.ends_at_root",
+               "C10,C15:builder_preorder.leaf_count", "C10,C15:builder_preorder.depths", "C10,C15:builder_preorder.order"]),
 ] + [
     dict(name="taptree_combine_%d_%d" % (a, b), fn="TapTree::combine", props=("C15", "C11"), kind="bounded",
          bound="%d + %d leaves, every u8 depth" % (a, b),
